@@ -138,8 +138,25 @@ def parse_block_guard_contract(prop, replay_code):
                 c.call(stream, VConst(_frozen(())), self_val=parser)
                 c.raises("BlockNestingError")
                 c.ensures("a-block-over-the-nesting-limit-is-never-parsed(the-guard-aborts-in-every-mode)", lambda r: z3.BoolVal(False))
+                # the counter is the measure that bounds the parser's recursion: a refused block must not
+                # LOWER it (in lax/warn mode parsing goes on after the error is reported)
+                c.ensures_exc("a-refused-block-does-not-lower-the-depth-counter", lambda r: r.st.deref(stream).fields["block_depth"].t >= depth.t)
                 c.replay("code", code=replay_code())
         _mk(mode)
+
+    @contract("liquid.parser:Parser.parse_block", prop=prop, name="parse_block[within the nesting limit: the depth counter is restored when the block ends]")
+    def pb_ok(c):
+        depth, limit = c.int("block_depth"), c.int("block_nesting_limit")
+        c.requires(z3.And(depth.t >= 0, depth.t + 1 <= limit.t), "this block is within the nesting limit")
+        env = c.obj(ENV, "env", mode=VConst(("enum", "Mode", "STRICT")), block_nesting_limit=limit, tags=c.st.alloc(HDict(items={k: c.obj("liquid.tag:Tag", "tag_" + k) for k in ("illegal", "content", "output")})))
+        eof = c.obj("liquid.token:Token", "eof", kind=const("end of expression"), value=const("end of expression"), start_index=const(-1), source=const(""))
+        stream = c.obj("liquid.stream:TokenStream", "stream", tokens=c.st.alloc(HList(items=[])), pos=const(0), block_depth=depth, eof=eof)
+        parser = c.obj("liquid.parser:Parser", "parser", env=env)
+        c.call(stream, VConst(_frozen(())), self_val=parser)
+        c.raises()
+        c.ensures("depth-counter-restored", lambda r: r.st.deref(stream).fields["block_depth"].t == depth.t)
+        c.assume_note("a stream at its end (the token loop is the obligation 'loops end at EOF'); nested blocks restore the counter by the same contract")
+        c.replay("code", code=replay_code())
 
 
 def _frozen(data):
